@@ -121,16 +121,11 @@ class FixedWindowCandidates:
             tracking_scores: List of tracking scores from the cost matrix.
 
         """
-        add_to_queue = True
-        if np.any(row_inds) and np.any(col_inds):
+        if row_inds is not None and col_inds is not None:
 
             for idx, (row, col) in enumerate(zip(row_inds, col_inds)):
                 current_instances.track_ids[row] = col
                 current_instances.tracking_scores[row] = tracking_scores[idx]
-
-            # update tracks to queue
-            self.tracker_queue.append(current_instances)
-            add_to_queue = False
 
             # Create new tracks for instances with unassigned tracks from track matching
             new_current_instances_inds = [
@@ -138,6 +133,10 @@ class FixedWindowCandidates:
             ]
             if new_current_instances_inds:
                 current_instances = self.add_new_tracks(
-                    current_instances, add_to_queue=add_to_queue
+                    current_instances, add_to_queue=False
                 )
+
+            # update tracks to queue
+            if any(track_id is not None for track_id in current_instances.track_ids):
+                self.tracker_queue.append(current_instances)
         return current_instances
